@@ -494,15 +494,15 @@ def run_cfg(ctx, p, cfg):
         for blk in f.blocks:
             if blk["term"]["k"] == "switch" and blk["id"] in f.reachable_blocks():
                 si = SwitchInfo(f, blk["id"])
-                zedge = zero_test(si, ("field", ("param", 1), ro["count_field"]))
-                if zedge is not None:
+                ze = q.zero_edges(si, ("field", ("param", 1), ro["count_field"]))
+                if ze is not None:
                     sw = si
-                    sw_zero = zedge
+                    sw_edges = ze
         first = sw is not None and all(f.dominates(sw.b, c.block) and c.block != sw.b
                                        for c in f.calls() if (c.callee or "").startswith("std::fs::") or c.callee in p.fns)
         r.require(sw is not None and (sw.b == 0 or first), "zero-count-tested-first", fn=f, detail="roll() tests count == 0 before any file-system or helper call")
         if sw:
-            zt, nz = sw.target_of(sw_zero), sw.target_of(not sw_zero)
+            zt, nz = sw_edges
             zr = f.reach(zt, include_src=True) - f.reach(nz, include_src=True)
             fsc = [c for c in f.calls() if c.block in zr and ((c.callee or "").startswith("std::fs::") or c.callee in p.fns)]
             r.require(len(fsc) == 1 and fsc[0].callee == "std::fs::remove_file" and deep_strip(fsc[0].arg(0)) == ("param", 2), "only-removes-the-file", fn=f,
@@ -669,10 +669,9 @@ def _count_guard_dominates_rotate(p):
     for blk in f.blocks:
         if blk["term"]["k"] == "switch" and blk["id"] in f.reachable_blocks() and all(f.dominates(blk["id"], c.block) for c in sites if c.fn is f):
             si = SwitchInfo(f, blk["id"])
-            zedge = zero_test(si, ("field", ("param", 1), ro["count_field"]))
-            if zedge is not None:
-                zt = si.target_of(zedge)
-                nzt = si.target_of(not zedge)
+            ze = q.zero_edges(si, ("field", ("param", 1), ro["count_field"]))
+            if ze is not None:
+                zt, nzt = ze
                 zr = f.reach(zt, include_src=True)
                 direct = [c for c in sites if c.fn is f]
                 spawns = [c for c in f.calls() if any(x[0] == "closure" for a in c.arg_exprs() for x in walk(a))]
